@@ -278,12 +278,42 @@ var rules = []rule{
 		}[rapid.IntRange(0, 2).Draw(t, "v")]
 	}},
 	{name: "unknown-event-or-signature", topOnly: true, lines: func(t *rapid.T, _ blockRef) []string {
-		return [][]string{
-			{"on zz_event", "    print 1", "end"},
-			{"on animate zz_a:string", "    print zz_a", "end"},
-			{"on input zz_a:string", "    print zz_a", "end"},
-			{"on animate zz_a:num zz_b:num", "    print zz_a zz_b", "end"},
-		}[rapid.IntRange(0, 3).Draw(t, "v")]
+		if rapid.IntRange(0, 5).Draw(t, "unknownevent") == 0 {
+			return []string{"on zz_event", "    print 1", "end"}
+		}
+		// docs/builtins.md#event-handlers: the parameters of a handler are those of the event, or none
+		events := []struct {
+			name string
+			sig  []string
+		}{{"key", []string{"string"}}, {"down", []string{"num", "num"}}, {"up", []string{"num", "num"}}, {"move", []string{"num", "num"}}, {"animate", []string{"num"}}, {"input", []string{"string", "string"}}}
+		ev := events[rapid.IntRange(0, len(events)-1).Draw(t, "event")]
+		sig := append([]string{}, ev.sig...)
+		switch rapid.IntRange(0, 2).Draw(t, "deviation") {
+		case 0: // one parameter of another type
+			i := rapid.IntRange(0, len(sig)-1).Draw(t, "which")
+			others := []string{"num", "string", "bool", "any", "[]num", "[]string", "[]any", "{}num", "{}string", "{}any"}
+			for {
+				o := rapid.SampledFrom(others).Draw(t, "othertype")
+				if o != sig[i] {
+					sig[i] = o
+					break
+				}
+			}
+		case 1: // one parameter too many
+			sig = append(sig, rapid.SampledFrom([]string{"num", "string", "any"}).Draw(t, "extra"))
+		default: // some but not all parameters
+			if len(sig) < 2 {
+				sig = append(sig, sig[0])
+			} else {
+				sig = sig[:len(sig)-1]
+			}
+		}
+		hdr, use := "on "+ev.name, "    print"
+		for i, ty := range sig {
+			hdr += fmt.Sprintf(" zz_p%d:%s", i, ty)
+			use += fmt.Sprintf(" zz_p%d", i)
+		}
+		return []string{hdr, use, "end"}
 	}},
 	{name: "stray-text-after-func-end", topOnly: true, lines: func(t *rapid.T, _ blockRef) []string {
 		return [][]string{
